@@ -1,7 +1,7 @@
 """C04 — flushed data survives reopen and reopen restores exactly the flushed state.
 
 Decided: C04.a–d of DESIGN.md §3 (+ shared C05.a–c). Not decided: equality of contents after reopen."""
-from rules.engine import (origins, origin_callees, short, hir_walk, hir_expr_str, hir_sites, codec_skeleton, split_sections,
+from rules.engine import (deep_origins, origins, origin_callees, short, hir_walk, hir_expr_str, hir_sites, codec_skeleton, split_sections,
                           compare_skeletons, success_ordered, error_blocks, control_deps_transitive, switch_condition)
 from rules import anchors as A
 
@@ -31,6 +31,11 @@ def run(prog, R, tier="quick", only_rule=None):
     # a failed operation must not delete files the (still current) version names, or the next reopen fails
     c05.c05c(prog, R, rid="C04.f")
     c04g(prog, R)
+    c04h(prog, R)
+    # a version file left by a failed attempt is overwritten (truncated) by the next one: else `current`'s checksum covers a
+    # prefix and the next open fails
+    from rules.props import c16
+    c16.c16e(prog, R, rid="C04.i")
 
 
 def c04a(prog, R, rid="C04.a"):
@@ -156,7 +161,15 @@ def c04c(prog, R, rid="C04.c"):
     plus = any(n.get("k") == "bin" and n["op"] == "+" and hir_expr_str(n) == "(x + 1)" for n in hir_walk(h["body"])) if h else False
     r.check(ok and plus, "%s|blob_file_id_counter.set(max(blob ids) + 1)" % g.path,
             "the blob file id counter does not restart above the recovered blob file ids", g.where(), detail)
-    r.floor(3)
+    # an id counter is never set back in a running tree: files of earlier versions that snapshots (or the free list) still
+    # hold would be overwritten by a new file of the same id, and unlinked when the old handle drops
+    resets = []
+    for c in prog.all_calls("seqno::SequenceNumberCounter::set"):
+        flds = {o.path[-1] for (_g, o) in deep_origins(prog, c.fn, c.args[0]) if o.path}
+        if flds & {"blob_file_id_counter", "table_id_counter", "memtable_id_counter"} and c.fn.path != "blob_tree::BlobTree::open":
+            resets.append("%s (%s)" % (c.fn.path, sorted(flds)))
+    r.check(not resets, "id counters|set only while opening the tree", "a file / memtable id counter is set outside of open: %s" % resets, "", str(resets))
+    r.floor(4)
 
 
 def leads_to_err(f, bb):
@@ -257,3 +270,42 @@ def c04g(prog, R, rid="C04.g"):
                             ok = ok or (one and base)
         r.check(ok, "%s|id = self.id + 1" % name, "the constructor does not number the new version current id + 1", g.where())
     r.floor(13)
+
+
+def c04h(prog, R, rid="C04.h"):
+    """Reopen restores every table with the checksum and the global seqno the version file records for it - whatever level
+    it sits in (a trivial move takes an ingested table below L0 without rewriting it)."""
+    r = R.rule(rid, "every recovered table gets the checksum and global seqno recorded for it", "D")
+    f = prog.need("tree::Tree::recover_levels")
+    g = prog.need("table::Table::recover")
+    names = [g.local_name(i) for i in range(1, g.argc + 1)]
+    calls = f.calls_to("table::Table::recover")
+    if not calls:
+        r.anchor_missing("Table::recover call in recover_levels")
+    for c in calls:
+        for pname in ("checksum", "global_seqno"):
+            if pname not in names:
+                r.anchor_missing("parameter %s of Table::recover" % pname)
+                continue
+            os_ = origins(f, c.args[names.index(pname)])
+            ok = bool(os_) and all(o.kind == "call" and o.extra.sres.endswith("HashMap::get") for o in os_)
+            r.check(ok, "tree::Tree::recover_levels|Table::recover(%s = the value looked up for this table id)" % pname,
+                    "a recovered table's %s does not (only) come from the entry the version file records for it (%s): e.g. an ingested "
+                    "table below L0 would come back with seqno offset 0" % (pname, [repr(o) for o in os_]), f.where(c.bb), str(os_))
+    # what is looked up was stored from the recovered entry's fields
+    ok = False
+    detail = ""
+    for fam in prog.family(f):
+        for c in fam.calls:
+            if c.sres.endswith("HashMap::insert") and len(c.args) >= 3:
+                for o in origins(fam, c.args[2]):
+                    if o.kind == "agg" and isinstance(o.extra, dict) and len(o.extra.get("ops", [])) == 3:
+                        flds = []
+                        for sub in o.extra["ops"][1:]:
+                            flds.append(sorted({x.path[-1] for x in origins(fam, sub) if x.path}))
+                        detail = str(flds)
+                        if flds == [["checksum"], ["global_seqno"]]:
+                            ok = True
+    r.check(ok, "tree::Tree::recover_levels|table map entry = (level, table.checksum, table.global_seqno)",
+            "the per-table lookup map is not filled from the recovered entry's checksum / global_seqno fields", f.where(), detail)
+    r.floor(3)
